@@ -74,3 +74,31 @@ package decorator
 //@ loop 2 invariant last: r.lines[len(r.lines)-1] + r.base <= r.cursor + $pos || r.lines[len(r.lines)-1] + r.base < r.cursor || (len(r.lines) == 1 && r.cursor == r.base)
 //@ loop 2 invariant lines_prefix: len(r.lines) >= entry(len(r.lines)) && (forall j int :: 0 <= j && j < entry(len(r.lines)) ==> r.lines[j] == entry(r.lines[j]))
 //@ loop 2 invariant rest: r.base <= r.cursor && r.cursorAtNewLine <= r.cursor
+
+//@ pure func cmtEnd(c *ast.Comment) token.Pos { c.Slash + len(c.Text) }
+//@ pure func cgEnd(g *ast.CommentGroup) token.Pos { cmtEnd(g.List[len(g.List)-1]) }
+
+//@ func (r *FileRestorer) applyLiteral
+//@ requires inv: r.inv()
+//@ modifies r.lines, elems(int)
+//@ ensures sorted: r.linesSorted()
+//@ ensures lines_prefix: len(r.lines) >= old(len(r.lines)) && (forall j int :: 0 <= j && j < old(len(r.lines)) ==> r.lines[j] == old(r.lines[j]))
+//@ ensures last: r.lines[len(r.lines)-1] + r.base < r.cursor + len(text) || r.lines[len(r.lines)-1] + r.base < r.cursor || (len(r.lines) == 1 && r.cursor == r.base)
+//@ ensures single_line_is_noop: !(hasPrefix(text, "`") && strContains(text, "\n")) ==> len(r.lines) == old(len(r.lines))
+//@ loop 1 invariant sorted: r.linesSorted()
+//@ loop 1 invariant pos: 0 - 1 <= $pos && $pos < len(text)
+//@ loop 1 invariant last: r.lines[len(r.lines)-1] + r.base <= r.cursor + $pos || r.lines[len(r.lines)-1] + r.base < r.cursor || (len(r.lines) == 1 && r.cursor == r.base)
+//@ loop 1 invariant lines_prefix: len(r.lines) >= entry(len(r.lines)) && (forall j int :: 0 <= j && j < entry(len(r.lines)) ==> r.lines[j] == entry(r.lines[j]))
+
+//@ func (r *FileRestorer) fileSize
+//@ requires inv: r.inv()
+//@ modifies nothing
+//@ ensures covers_cursor: result + r.base >= r.cursor
+//@ ensures covers_lines: forall i int :: 0 <= i && i < len(r.lines) ==> r.lines[i] < result
+//@ ensures covers_comments: forall i int :: 0 <= i && i < len(r.comments) ==> cgEnd(r.comments[i]) < result + r.base
+//@ ensures positive_or_empty: result >= 0
+//@ loop 1 invariant cursor: end >= r.cursor
+//@ loop 1 invariant comments: forall i int :: 0 <= i && i < $i ==> cgEnd(r.comments[i]) < end
+//@ loop 2 invariant cursor: end >= r.cursor
+//@ loop 2 invariant comments: forall i int :: 0 <= i && i < len(r.comments) ==> cgEnd(r.comments[i]) < end
+//@ loop 2 invariant lines: forall i int :: 0 <= i && i < $i ==> r.lines[i] + r.base < end
